@@ -240,6 +240,33 @@ def join_mixed_cell_refused(n1: int, n2: int, which: bool) -> bool:
         return True
 
 
+def md_join_coinciding_boundary(n1: int, n2: int, cell: bool, mode: int) -> bool:
+    """
+    pre: 1 <= n1 <= 2 and 1 <= n2 <= 2 and 0 <= mode <= 3
+    post: __return__
+    """
+    # the module-level md.join: pieces whose boundary frames COINCIDE are still concatenated in full unless discarding is requested
+    n1, n2 = conc(n1, 1, 2), conc(n2, 1, 2)
+    t1, t2 = mk(n1, cell, False), mk(n2, cell, False, seed=5)
+    x = t2.xyz.copy()
+    x[0] = t1.xyz[-1]
+    t2.xyz = x
+    mode = conc(mode, 0, 3)
+    if mode == 0:
+        r = md.join([t1, t2])
+    elif mode == 1:
+        r = md.join(iter([t1, t2]), check_topology=True)
+    elif mode == 2:
+        r = md.join([t1, t2], check_topology=False, discard_overlapping_frames=False)
+    else:
+        r = md.join([t1, t2], check_topology=False, discard_overlapping_frames=True)
+    first = t1.xyz[:-1] if mode == 3 else t1.xyz
+    ok = same(r.xyz, np.concatenate([first, t2.xyz])) and len(r.time) == r.n_frames
+    if cell:
+        ok = ok and r.unitcell_lengths is not None and len(r.unitcell_lengths) == r.n_frames
+    return ok and inv(r)
+
+
 def join_discard_overlap(n1: int, n2: int, cell: bool, overlap: bool) -> bool:
     """
     pre: 2 <= n1 <= 3 and 1 <= n2 <= 2
